@@ -134,6 +134,17 @@ CLAIMS["C18"] = (
     "counted as a representation; name_style conversion is C03's model. One defect repaired (log2(0)); one known finding "
     "(allow_compound=False with bits only inside compound members).", "DESIGN.md section 5 C18", TECH)
 
+CLAIMS["C14"] = (
+    "Proof: C14_coercer_sound - whatever coercer the rules produce maps every value of the source type to a value of the "
+    "destination type (induction on the pair of types, value typing judgement has_type with a transitive subclass relation); "
+    "C14_coercer_documented - a coercer exists only for pairs in the inductive transcription of the documented list (same "
+    "type, Any, non-generic subclass, union subset by equality, element-wise list / dict / Optional); the origin-only rule of "
+    "the pinned tree refuted by a witness. Tied to the code exhaustively: all ordered pairs over a 38-type pool, converter "
+    "creation compared with the model, every produced converter run on generated values and the result type-checked by the "
+    "harness's own checker; unlinked-field policies; per-call-recipe history scenarios.",
+    "Trusted: Coq kernel, renderers, issubclass table of the pool classes. Models-as-field-types go through C13. Two defects "
+    "repaired in /repo (origin-only union sub-case, multi-case union treated as Optional).", "DESIGN.md section 5 C14", TECH)
+
 NOT_YET = "check not built yet in this session (DESIGN.md section 10 build order); not claimed until its model, theorems and correspondence exist"
 
 
